@@ -147,6 +147,27 @@ def run(ctx):
                 ctx.violation('word %s under protocol %d decodes wrongly' % (w.hex(), v),
                               {'version': v, 'word': w.hex(), 'impl': got},
                               key={'version': v, 'word': w.hex()})
+    # ---- ONE long-lived context whose protocol_version is reassigned (what Connection.connect() does
+    # after negotiation and on every reconnect): the layout must follow the CURRENT version
+    walk = [404, 477, 404, 757, 340, 498, 47, 443, 442, 443, 757, 404]
+    walk += [rng.choice(known) for _ in range(ctx.scale(40, 400))]
+    shared = ConnectionContext(protocol_version=walk[0])
+    for v in walk:
+        if v not in idx or table.get(v) == 2:
+            continue
+        shared.protocol_version = v
+        nf = table[v]
+        t = rng.choice(triples)
+        s = Sink()
+        Position.send_with_context(Position(*t), s, shared)
+        back = Position.read_with_context(io.BytesIO(bytes(s.b)), shared)
+        ctx.case(('reuse', v, t))
+        ctx.count('reused_context_steps')
+        if bytes(s.b) != ref_word(nf, *t) or (back.x, back.y, back.z) != t:
+            ctx.violation('reused context now at protocol %d: position %r encodes to %s (expected %s)'
+                          % (v, t, bytes(s.b).hex(), ref_word(nf, *t).hex()),
+                          {'walk': walk[:walk.index(v) + 1][-6:], 'version': v, 'xyz': t},
+                          key={'reuse': v, 'xyz': list(t)})
     # ---- chunk section positions (22/22/20)
     SX = [-2 ** 21, -2 ** 21 + 1, -1, 0, 1, 2 ** 21 - 1]
     SY = [-2 ** 19, -1, 0, 1, 2 ** 19 - 1]
